@@ -247,14 +247,15 @@ def match_ids(d, p):
 
 
 def match_sure(d, p):
-    """False when a key or wildcard step meets a list (yamlpath then searches the list's records: not modelled)."""
+    """Only a step that suits every node it meets is modelled: a key over hashes (or sets), a position over lists,
+    the wildcard over hashes (yamlpath searches a list's records for a key, and gives the whole path up when one
+    branch of a wildcard raises)."""
     cur = {1}
     for st in p:
         for i in cur:
             k = d[i - 1]["k"]
-            if k == "seq" and not (isinstance(st, int) and st >= 0):
-                return False
-            if k in ("set", "s") and st == WILD:
+            ok = k == "map" if st == WILD else k == "seq" if isinstance(st, int) else k in ("map", "set")
+            if not ok:
                 return False
         cur = {c for i in cur for c in (d[i - 1]["kids"] if st == WILD else children_at(d, i, st))}
     return True
